@@ -58,10 +58,16 @@ Definition error_dequeued (s : state) : bool :=
 (* a terminating stimulus has occurred on the current connection:
    the group context is cancelled (Close() took effect, a loop returned an error - write
    error, read error / peer EOF seen, parse error, ping timeout -, or the QUIT path closed),
-   Close() has been called, the QUIT has been written, the peer has closed its end, or an
-   ERROR has been dequeued by the normal branch of execLoop *)
+   Close() has been called, the QUIT has been written, the peer has closed its end, an
+   ERROR has been dequeued by the normal branch of execLoop - or, earlier still, an ERROR sits
+   in the receive queue or a QUIT in the send queue *)
+Definition is_error (e : event) : bool := match e with EvError _ => true | EvMsg _ => false end.
+Definition error_queued (s : state) : bool := existsb is_error (rx s).
+Definition quit_queued (s : state) : bool := existsb o_quit (tx s).
+
 Definition stimulated (s : state) : bool :=
-  cancelled s || close_called s || quit_written s || peer_closed s || error_dequeued s.
+  cancelled s || close_called s || quit_written s || peer_closed s || error_dequeued s
+  || error_queued s || quit_queued s.
 
 (* ... and Connect is on its way out: registering/waiting with a stimulus, or past Wait *)
 Definition ending (s : state) : bool := (prewait s && stimulated s) || postwait s.
@@ -102,6 +108,32 @@ Proof.
     destruct (cpc s); try discriminate; right; destruct I as (_&_&_&_&_&_&I); apply I; assumption.
 Qed.
 
+Lemma error_queued_step s l s' : Inv s -> tstep s l s' -> prewait s = true -> error_queued s = true ->
+  error_queued s' = true \/ error_dequeued s' = true \/ cancelled s' = true.
+Proof.
+  intros I H L C. unfold prewait in L. unfold error_queued, error_dequeued in *. unfold Inv in I.
+  tcase H; auto; try (rewrite H in L; discriminate);
+    try (match goal with E : rx s = _ |- _ => rewrite E in C; cbn [existsb] in C end);
+    try (rewrite existsb_app, C; auto; fail).
+  - (* dequeued by the normal branch *)
+    destruct e; cbn [is_error] in *; auto.
+  - (* dequeued by the drain branch: the group is cancelled *)
+    right. right. destruct (cpc s); try discriminate; destruct I as (_&_&_&Id&_); apply Id;
+      unfold drainmode; rewrite H; reflexivity.
+Qed.
+
+Lemma quit_queued_step s l s' : Inv s -> tstep s l s' -> prewait s = true -> quit_queued s = true ->
+  quit_queued s' = true \/ quit_written s' = true \/ cancelled s' = true.
+Proof.
+  intros I H L C. unfold prewait in L. unfold quit_queued, quit_written in *. unfold Inv in I.
+  tcase H; unfold enq; split_ifs; auto; try (rewrite H in L; discriminate);
+    try (match goal with E : tx s = _ |- _ => rewrite E in C; cbn [existsb] in C end);
+    try (rewrite existsb_app, C; auto; fail);
+    try (match goal with E : o_quit _ = false |- _ => rewrite E in C; cbn [orb] in C; auto end);
+    (* a failed write with an error already recorded: the group is cancelled already *)
+    try (right; right; destruct (cpc s); try discriminate; destruct I as (_&_&_&_&_&_&I); apply I; assumption).
+Qed.
+
 Lemma phase_step s l s' : tstep s l s' ->
   (prewait s = true -> prewait s' = true \/ postwait s' = true) /\
   (postwait s = true -> returned s = false -> postwait s' = true).
@@ -122,12 +154,14 @@ Proof.
     rewrite Hp'. simpl.
     pose proof (prewait_live s Pw) as Lv.
     unfold stimulated in *.
-    repeat rewrite orb_true_iff in St. destruct St as [[[[St|St]|St]|St]|St].
+    repeat rewrite orb_true_iff in St. destruct St as [[[[[[St|St]|St]|St]|St]|St]|St].
     + rewrite (cancelled_mono s l s' H Lv St). reflexivity.
     + destruct (close_called_step s l s' H Lv St) as [X|X]; rewrite X; repeat rewrite orb_true_r; reflexivity.
     + destruct (quit_written_step s l s' H Lv St) as [X|X]; rewrite X; repeat rewrite orb_true_r; reflexivity.
     + rewrite (peer_closed_mono s l s' H Lv St). repeat rewrite orb_true_r. reflexivity.
     + destruct (error_dequeued_step s l s' I H Pw St) as [X|X]; rewrite X; repeat rewrite orb_true_r; reflexivity.
+    + destruct (error_queued_step s l s' I H Pw St) as [X|[X|X]]; rewrite X; repeat rewrite orb_true_r; reflexivity.
+    + destruct (quit_queued_step s l s' I H Pw St) as [X|[X|X]]; rewrite X; repeat rewrite orb_true_r; reflexivity.
   - destruct (phase_step s l s' H) as [_ Hp]. rewrite (Hp E R). apply orb_true_r.
 Qed.
 
@@ -211,7 +245,7 @@ Proof.
     - apply sys_ne_read, read_en; auto.
     - apply sys_ne_send, send_en; auto.
     - apply sys_ne_ping, ping_en; auto. }
-  unfold stimulated in E. repeat rewrite orb_true_iff in E. destruct E as [[[[E|E]|E]|E]|E].
+  unfold stimulated in E. repeat rewrite orb_true_iff in E. destruct E as [[[[[[E|E]|E]|E]|E]|E]|E].
   - apply Hc. exact E.
   - apply sys_ne_app, app_en. unfold close_called in E. destruct (close_st s); try discriminate. reflexivity.
   - apply sys_ne_send, send_en; unfold quit_written in E; destruct (spc s); try discriminate.
@@ -222,6 +256,20 @@ Proof.
     + apply sys_ne_read, read_en; rewrite Rp; try discriminate.
     + apply Hc. apply Ir. reflexivity.
   - apply sys_ne_exec, exec_en; unfold error_dequeued in E; destruct (xpc s); try discriminate.
+  - (* an ERROR is queued *)
+    unfold error_queued in E. destruct (xpc s) eqn:X.
+    + apply sys_ne_exec, exec_en; rewrite X; try discriminate. intros _. right.
+      destruct (rx s); [discriminate|discriminate].
+    + apply sys_ne_exec, exec_en; rewrite X; discriminate.
+    + apply sys_ne_exec, exec_en; rewrite X; discriminate.
+    + apply Hc. apply Id. unfold drainmode. rewrite X. reflexivity.
+    + apply Hc. apply Id. unfold drainmode. rewrite X. reflexivity.
+  - (* a QUIT is queued *)
+    unfold quit_queued in E. destruct (spc s) eqn:X.
+    + apply sys_ne_send, send_en; rewrite X; try discriminate. intros _. right.
+      destruct (tx s); [discriminate|discriminate].
+    + apply sys_ne_send, send_en; rewrite X; discriminate.
+    + apply Hc. apply Is. reflexivity.
 Qed.
 
 (* ---- the bounded-termination statement ---- *)
